@@ -95,6 +95,28 @@ def case_hash(case) -> int:
     return int.from_bytes(hashlib.blake2b(canon(case).encode(), digest_size=8).digest(), "big")
 
 
+@contextmanager
+def library_logging(level=None):
+    """Run the library with its loggers enabled at `level` (default DEBUG, records discarded by a NullHandler): the harness
+    normally disables logging altogether, so the code on the library's logging paths would never execute."""
+    import logging
+
+    lg = logging.getLogger("indi")
+    saved = (lg.level, lg.propagate, logging.root.manager.disable)
+    h = logging.NullHandler()
+    lg.addHandler(h)
+    lg.setLevel(logging.DEBUG if level is None else level)
+    lg.propagate = False
+    logging.disable(logging.NOTSET)
+    try:
+        yield
+    finally:
+        lg.removeHandler(h)
+        lg.setLevel(saved[0])
+        lg.propagate = saved[1]
+        logging.disable(saved[2])
+
+
 _DEADLINE = {"fired": False}
 
 
